@@ -100,8 +100,18 @@ def fieldnames_rule(ctx, adt='Record', rule='FIELDNAMES', key='one-position-per-
                             continue
                         maps.add(l_)
                         for d_ in b.defs().get(l_, []):
-                            if d_[2] == 'assign' and d_[3].get('k') == 'use' and op_place(d_[3]['op']) and not op_place(d_[3]['op']).get('p'):
+                            if d_[2] == 'assign' and d_[3].get('k') == 'use' and op_place(d_[3]['op']):
+                                # whole-value moves, and the payload of `?` plumbing (`(cf as Continue).0`, `Ok(map)` built
+                                # by a helper that was spliced in)
                                 todo_.append(op_place(d_[3]['op'])['l'])
+                            elif d_[2] == 'assign' and d_[3].get('k') == 'agg' and d_[3].get('variant') in ('Ok', 'Continue', 'Some') and d_[3].get('ops'):
+                                q_ = op_place(d_[3]['ops'][0])
+                                if q_ is not None:
+                                    todo_.append(q_['l'])
+                            elif d_[2] == 'call' and (d_[3].get('callee') or '').endswith('Try::branch') and d_[3].get('args'):
+                                q_ = op_place(d_[3]['args'][0])
+                                if q_ is not None:
+                                    todo_.append(q_['l'])
 
                     def on_that_map(x, it):
                         if x is not b:
